@@ -320,8 +320,23 @@ func (f *Frame) applyContract(pos token.Pos, fn *ssa.Function, con *Contract, ar
 	}
 	pre := vc.def("pre", "Bool", and(pres...))
 	// havoc the write frame
+	listsNextR := false
 	for _, m := range con.Modifies {
-		f.havocModifies(env, m, pc, st, pos)
+		if m == "nextR" {
+			listsNextR = true
+		}
+	}
+	if listsNextR || vc.eng.effectsOf(fn).Allocs {
+		// the callee may allocate (append, make, slice literals), whether or not its contract says so: the region
+		// counter moves on, and it does so before the havocked objects get their well-formedness facts (their slices
+		// may live in the new regions). (The frame check exempts nextR, so leaving it out of a modifies list is not an
+		// error; without this step a caller would silently assume that the callee's appends never reallocate.)
+		f.havocModifies(env, "nextR", pc, st, pos)
+	}
+	for _, m := range con.Modifies {
+		if m != "nextR" {
+			f.havocModifies(env, m, pc, st, pos)
+		}
 	}
 	// results: an ensures clause of the shape (= result X) defines the result instead of constraining a fresh constant
 	results := fn.Signature.Results()
